@@ -84,7 +84,7 @@ def check_case(ctx, cs):
         small = {"size_u": su, "size_v": sv, "degree_u": pu, "degree_v": pv, "pts": o["pts"]}
         tg += ["pu=%d" % pu, "pv=%d" % pv, "%dx%d" % (su, sv)]
         ctx.count((op, str(o["pts"]), pu, pv), sample={"op": op, **{k: v for k, v in small.items() if k != "pts"}, "kvu": o["kvu"]})
-        ok, srf = _try(ctx, "fitting.interpolate_surface", tg, small, lambda: fitting.interpolate_surface([list(x) for x in pts], su, sv, pu, pv))
+        ok, srf = _try(ctx, "fitting.interpolate_surface", tg, small, lambda: fitting.interpolate_surface([list(x) for x in pts], su, sv, pu, pv, centripetal=c["centr"]))
         if not ok:
             return
         site = "fitting.interpolate_surface"
@@ -110,7 +110,7 @@ def check_case(ctx, cs):
         # (control point counts between degree + 2 and number of data points - 1, as the property quantifies)
         if su - 1 >= pu + 2 and sv - 1 >= pv + 2:
             ok, asf = _try(ctx, "fitting.approximate_surface", tg, small,
-                           lambda: fitting.approximate_surface([list(x) for x in pts], su, sv, pu, pv, ctrlpts_size_u=su - 1, ctrlpts_size_v=sv - 1))
+                           lambda: fitting.approximate_surface([list(x) for x in pts], su, sv, pu, pv, ctrlpts_size_u=su - 1, ctrlpts_size_v=sv - 1, centripetal=c["centr"]))
             if ok:
                 AP = [list(x) for x in asf.ctrlpts]
                 nu, nv = su - 1, sv - 1
